@@ -48,6 +48,7 @@ class Harness {
     this.env = Object.assign({}, process.env, opts.env || {})
     this.baseTimeout = opts.batchTimeoutMs || 60000
     this.perReq = opts.perReqMs || 250
+    this.maxTimeouts = opts.maxTimeouts
     this.stats = { processes: 0, requests: 0, aborts: 0, timeouts: 0 }
     this.lastStderr = ''
   }
@@ -94,6 +95,11 @@ class Harness {
       if (timedOut) {
         this.stats.timeouts++
         responses[start + n] = { timeout: true, budget_ms: timeout }
+        // a run that keeps timing out is abandoned: the remaining requests are not answered (harness error = inconclusive)
+        if (this.maxTimeouts !== undefined && this.stats.timeouts > this.maxTimeouts) {
+          for (let i = start + n + 1; i < requests.length; i++) responses[i] = { harness_error: 'run abandoned after ' + this.stats.timeouts + ' timeouts' }
+          return responses
+        }
       } else {
         this.stats.aborts++
         responses[start + n] = { abort: { signal: r.signal || null, status: r.status, error: r.error ? String(r.error.code || r.error) : null, stderr: this.lastStderr.slice(-1500) } }
